@@ -5,12 +5,17 @@ import sys
 sys.path.insert(0, os.path.dirname(os.path.abspath(__file__)))
 import checklib
 import syncgen
+import parentrace
 
 MON = {"c02": "c02_monitor maxRequestedBlocks"}
 
 
 def suites(tier, rng, replay):
     return [syncgen.suite(tier, rng, replay, MON)]
+
+
+def extra(tier, rng, workdir):
+    return parentrace.run(tier, workdir)
 
 
 def keyfn(rec):
@@ -26,6 +31,7 @@ SPEC = {
     "props_file": "props/C02.v",
     "suites": suites,
     "keyfn": keyfn,
+    "extra": extra,
     "trusted_base": [
         "Coq 8.16.1 kernel (coqc); vm_compute for evaluating model and monitor on the cases; no native_compute",
         "axioms: none declared; Print Assumptions recorded under print_assumptions",
@@ -33,7 +39,7 @@ SPEC = {
         "the block repository enters through its abstract interface (list of headers), justified by C09's refinement theorem",
         "modelled, not verified: hashes are ids of a block tree (collision-free: a rank increases from parent to child), a block body is valid or not w.r.t. the header's merkle root",
     ],
-    "assumptions": ["every handler / ProcessBlock call is one atomic step (they run on the single incoming goroutine resp. under blockLock); storage does not fail (C10)"],
+    "assumptions": ["every handler / ProcessBlock call is one atomic step in the MODEL (handlers run on the single incoming goroutine, ProcessBlock under blockLock and - since /repo fix e0141dc - the block repository's chain lock, which the headers handler holds too); the one straddling placement (a reorg header inside ProcessBlock after its parent check) is a scripted real-thread scenario judged on the implementation's digest (parentrace, code 215); storage does not fail (C10)"],
     "rule": "random message sequences over generated block trees (3-12 main blocks, 0-3 forks, start block anywhere): header runs in/out of order, duplicated, unknown parents, empty; block messages requested or not, valid or forged; process steps anywhere; check, version, clock advances, time-outs, reconnects, node restarts; + scripted well-behaved syncs; distinct = distinct (cfg, ops)",
 }
 
